@@ -67,11 +67,20 @@ def build_shim():
 
 
 def build_vh():
-    """Build the in-process harness (engine E3) against /repo's current tree with the `verif` feature."""
+    """Build the in-process harness (engine E3) against the subject tree's current sources with the `verif` feature.
+    The crate is engines/vh; when VERIF_REPO points somewhere else than /repo (development only: background runs against a
+    snapshot) a copy of the crate with the path dependency rewritten is built instead."""
     crate = os.path.join(VERIF, "engines", "vh")
     lock = os.path.join(crate, "Cargo.lock")
     if not os.path.exists(lock):
         machinery_exit("engines/vh/Cargo.lock missing")
+    if os.path.realpath(REPO) != "/repo":
+        alt = os.path.join(BUILD, "vh-crate")
+        shutil.rmtree(alt, ignore_errors=True)
+        shutil.copytree(crate, alt)
+        toml = open(os.path.join(alt, "Cargo.toml")).read().replace('path = "/repo"', 'path = "%s"' % os.path.realpath(REPO))
+        open(os.path.join(alt, "Cargo.toml"), "w").write(toml)
+        crate = alt
     env = dict(CARGO_ENV, CARGO_TARGET_DIR=os.path.join(BUILD, "vh"))
     r = _run(["cargo", "build", "--release", "--offline"], cwd=crate, env=env)
     if r.returncode != 0 or not os.path.exists(VH_BIN):
